@@ -20,7 +20,7 @@ LEVEL = 'model_checking'
 RULE = ('per scenario (a fixed small node pool + a menu of editing calls): all histories up to the depth bound, '
         'breadth-first; the events offered in a state are every call of the menu on every container of the pool with '
         'every legal argument (a detached element/text node, or a fragment none of whose children is listed by an '
-        'element/document; never an ancestor of the target) and every index form of the menu; a history is extended '
+        'element/document and none by the target itself; never an ancestor of the target) and every index form of the menu; a history is extended '
         'only from states whose pointer graph equals the strict model (a deviating step is a leaf); states are merged '
         'on the canonical key (model dump + full implementation pointer dump) and the lexicographically smallest '
         'history represents a state.  evaluations = transitions executed on real objects + per-state view checks; a '
@@ -35,9 +35,12 @@ ASSUMPTIONS = [
     'plasTeX\'s single-flag convention; pairs from different trees are not judged (stale pointers of detached roots)',
     'getElementsByTagName searches attribute-held fragments before the children (documented plasTeX extension)',
     'normalize may replace a single text node by a new equal one (node identity of text is not part of the statement)',
-    'arguments are restricted as the statement says (detached node or unspent fragment); the attribute name "self" '
-    '(childNodes aliasing) and cloning the Document are outside the alphabet; "random sequences up to length 40" is '
-    'replaced by exhaustive exploration at the stated depth',
+    'arguments are restricted as the statement says (detached node or unspent fragment); an element whose child list is '
+    'its "self" attribute fragment (scenario selfattr) is set up through setAttribute before its child list is touched, '
+    'and that fragment is edited only through its element; cloning the Document is outside the alphabet; "random '
+    'sequences up to length 40" is replaced by exhaustive exploration at the stated depth',
+    'per-call limits count CPU time of the worker (ITIMER_VIRTUAL), not wall time; a call that does not return within '
+    'the limit is a violation',
 ]
 
 TAGS = ('p', 'q')
@@ -121,6 +124,13 @@ _scn('clone5',
      setup=[('append', 2, 3, NA), ('setattr', 1, 2, NA)],
      ops=('append', 'remove', 'normalize', 'clone', 'setattr'),
      depth={'quick': 4, 'thorough': 5}, max_nodes=8)
+# selfattr: element 1 whose attribute 'self' = fragment 2 is its child list (plasTeX's textbf{..} layout), document,
+#         element, 2 texts; the fragment is edited only through its element
+_scn('selfattr',
+     pool=[(D, None), (E, 'p'), (F, None), (E, 'q'), (T, 'x'), (T, 'y')],
+     setup=[('setself', 1, 2, NA)],
+     ops=('append', 'insert0', 'remove', 'pop', 'normalize', 'clone'),
+     depth={'quick': 3, 'thorough': 4}, max_nodes=12)
 # full  : the pool of DESIGN.md (document, 3 elements, 2 texts, fragment 5 = [element 6, text 7], element 8 with
 #         attribute arg = fragment 9 = [element 10]) with the complete menu
 _scn('full',
@@ -143,6 +153,7 @@ def gen_events(r, scn):
     kind, kids = r.kind, r.kids
     n = len(kind)
     lst, tp, hold = r.listers(), r.tree_parent(), r.attr_holder()
+    selfheld = set(a['self'] for a in r.attrs if a and 'self' in a)     # edited only through their element
     ops = scn.ops
     args = []
     for x in range(n):
@@ -152,11 +163,11 @@ def gen_events(r, scn):
             if x not in lst and x not in hold:
                 args.append(x)
         elif kind[x] == F:
-            if all(c not in tp for c in kids[x]):
+            if x not in selfheld and all(c not in tp for c in kids[x]):
                 args.append(x)
     evs = []
     for t in range(n):
-        if kind[t] == T:
+        if kind[t] == T or t in selfheld:
             continue
         if scn.targets is not None and t < len(scn.pool) and t not in scn.targets:
             continue
@@ -170,6 +181,8 @@ def gen_events(r, scn):
             if x in up:
                 continue
             isf = kind[x] == F
+            if isf and L and any(c in k for c in kids[x]):
+                continue            # the target already lists a child of the fragment: no list may hold a node twice
             if 'append' in ops:
                 evs.append(('append', t, x, NA))
             if 'insert' in ops:
@@ -220,6 +233,18 @@ def gen_events(r, scn):
 _NORET = object()
 
 
+def child_list(o):
+    """(children, materialised?) without touching the object: the cached list, else -- as Node.childNodes documents --
+    the 'self' attribute fragment, else nothing"""
+    ch = getattr(o, '_dom_childNodes', None)
+    if ch is not None:
+        return list(ch), True
+    a = getattr(o, '_dom_attributes', None)
+    if a and a.get('self') is not None:
+        return list(a['self']), False
+    return [], False
+
+
 class Impl(object):
     def __init__(self, scn):
         from plasTeX.DOM import Document
@@ -263,7 +288,7 @@ class Impl(object):
         if a:
             for v in a.values():
                 self.scan(v, seen)
-        for c in (getattr(o, '_dom_childNodes', None) or ()):
+        for c in child_list(o)[0]:
             self.scan(c, seen)
 
     def apply(self, ev):
@@ -303,6 +328,8 @@ class Impl(object):
                 ret = N[t].extend(N[x])
             elif op == 'setattr':
                 N[t].setAttribute('arg', N[x])
+            elif op == 'setself':
+                N[t].setAttribute('self', N[x])
             elif op == 'normalize':
                 N[t].normalize()
                 self.scan(N[t])
@@ -345,9 +372,9 @@ class Impl(object):
                 mats.append(None)
             else:
                 names.append(o.nodeName if kind == E else None)
-                ch = getattr(o, '_dom_childNodes', None)
-                mats.append(ch is not None)
-                kids.append([reg(c) for c in ch] if ch is not None else [])
+                ch, mat = child_list(o)
+                mats.append(mat)
+                kids.append([reg(c) for c in ch])
                 if kind == E:
                     a = getattr(o, '_dom_attributes', None)
                     attrs.append({key: reg(v) for key, v in a.items()} if a is not None else {})
@@ -453,9 +480,14 @@ def judge_transition(scn, history, r0=None):
             res_i = im.apply(ev)
         except core.Timeout:
             res_i = ('timeout',)
-    obs = im.observe()
     r = r0.copy()
     res_m = r.apply(ev)
+    if res_i == ('timeout',):
+        # the call did not return (and may have grown the pool without bound): do not dump the wreck
+        return {'verdict': 'violation', 'res': res_i, 'model': r, 'impl': im, 'obs': None,
+                'detail': 'the call did not return within %.0f CPU-s' % TLIMIT,
+                'expected': readable_model(res_m, r), 'observed': {'result': ['timeout']}}
+    obs = im.observe()
     why = differs(res_i, obs, res_m, r, True)
     out = {'obs': obs, 'res': res_i, 'model': r, 'impl': im}
     if not why:
@@ -496,7 +528,7 @@ def shape_impl(o):
     a = getattr(o, '_dom_attributes', None)
     at = tuple((k, shape_impl(v)) for k, v in a.items()) if a else ()
     return (kind, o.nodeName if kind == E else None, at,
-            tuple(shape_impl(c) for c in (getattr(o, '_dom_childNodes', None) or ())))
+            tuple(shape_impl(c) for c in child_list(o)[0]))
 
 
 # ---- derived views ------------------------------------------------------------------------------
@@ -540,13 +572,13 @@ def model_views(r, q, dev=0):
         v.append(r.text(c))
     for c in conts:
         for tag in TAGS:
-            v.append(r.bytag(c, tag))
+            v.append(r.bytag(c, tag, None, bool(dev & M.SELF_LOOKUP_TWICE)))
     for c in conts:
         v.append(r.descendants(c))
     ptr = r.par if dev & M.DETACHED_KEEPS_PARENT else r.clean_pointers(tp)
-    topmost = bool(dev & M.COMPARE_TOPMOST_ANCESTOR)
+    algo = 'topmost' if dev & M.COMPARE_TOPMOST_ANCESTOR else ('deepest' if dev & M.DETACHED_KEEPS_PARENT else 'tree')
     for a, b in pairs:
-        v.append(r.compare(a, b, ptr, topmost))
+        v.append(r.compare(a, b, ptr, algo))
     return v
 
 
